@@ -229,6 +229,34 @@ def body(ctx, conv, shape, variant, kind, part, data_first=False, via=None):
                   'the deprecated alias unravel_index(n, grid_kind) is wind_index(n, grid_kind)')
         return
 
+    if part == 'huge':
+        # indexes beyond 32 bits: far out of range on a small grid (refused, never wrapped), and in range on a grid
+        # with more than 2**31 cells (row-major like any other)
+        for n in (2 ** 31, 2 ** 32 + 7, 2 ** 32, 2 ** 33 + size - 1, -2 ** 32 - 1, 2 ** 63 - 1):
+            try:
+                got = convention.wind_index(n, grid_kind=kind_obj)
+            except Exception:
+                got = None
+            ctx.check(got is None, 'wind_index returned only for in-range index (no wrap / clamp)')
+        if conv == 'cf1d':
+            from emsarray.conventions.grid import CFGrid1D
+            big = builders.cf1d(50000, 50001, lat=numpy.linspace(-80.0, 80.0, 50000), lon=numpy.linspace(0.0, 359.0, 50001))
+            bc = CFGrid1D(big)
+            for j, i in ((42949, 33647), (49999, 50000), (42950, 0), (0, 50000)):
+                n = j * 50001 + i
+                r = bc.ravel_index((j, i))
+                ctx.check(int(r) == n, 'linear order is row-major')
+                back = bc.wind_index(n)
+                ctx.check(tuple(int(v) for v in back) == (j, i), 'wind_index(ravel_index(idx)) == idx')
+                # index components held in narrow numpy integer types (as read from a table) mean the same cell
+                r16 = bc.ravel_index((numpy.int32(j), numpy.int32(i)))
+                ctx.check(int(r16) == n, 'linear order is row-major')
+            small = CFGrid1D(builders.cf1d(200, 300))
+            for j, i in ((150, 299), (199, 0), (110, 7)):
+                ctx.check(int(small.ravel_index((numpy.int16(j), numpy.int16(i)))) == j * 300 + i, 'linear order is row-major')
+                ctx.check(int(small.ravel_index((numpy.uint8(j), numpy.uint16(i)))) == j * 300 + i, 'linear order is row-major')
+        return
+
     if part == 'helper':
         # the grid kind's call helper is the documented way to write Arakawa C indexes: kind(j, i) == (kind, j, i).
         # (components in a bounded range around the grid, so that a helper that coerces them stays explorable)
@@ -314,6 +342,8 @@ def cases(tier):
                 for part in ('meta', 'wind', 'ravel'):
                     yield Case(f'{conv}:{shp}:{variant}:{kind}:{part}:after-{via}'.replace(' ', ''), body,
                                dict(conv=conv, shape=shp, variant=variant, kind=kind, part=part, via=via), patches=_patches, max_paths=500)
+    for conv, shp, variant, kind in (('cf1d', (2, 3), 'yx', 'face'), ('shoc_standard', (2, 3), '-', 'left'), ('ugrid', 'tqp', 'edgedim', 'edge')):
+        yield Case(f'{conv}:{shp}:{variant}:{kind}:huge'.replace(' ', ''), body, dict(conv=conv, shape=shp, variant=variant, kind=kind, part='huge'), max_paths=5)
     # a data variable stored (x, y) listed before the geometry variables: the dataset's own dimension order is x, y
     for conv, variant in (('cf1d', 'yx'), ('cf2d', 'plainvars'), ('shoc_simple', '-')):
         for shp in ((2, 3), (3, 1)) if tier == 'quick' else ((2, 3), (3, 1), (1, 4), (4, 5)):
